@@ -1,4 +1,168 @@
-import OmplModel.Model.NN
+import OmplModel.Proofs.NNLinear
+import OmplModel.Proofs.NNGnat
+import Mathlib.Algebra.Order.Ring.Int
+/-!
+C10 — nearest-neighbour structures answer exactly like exhaustive search.
+
+Property theorems only (helpers: `Proofs/NNLinear.lean`, `Proofs/NNGnat.lean`).
+
+Proved in full: Linear (`linear_exact`, `linear_nearestK_dists`, `linear_size_list_abs`,
+`linear_remove_result`) and SqrtApprox (`sqrt_member`, `sqrt_size_list_abs`).
+
+GNAT is `_partial`: the soundness of every pruning test of the query code is proved for every
+metric on a linearly ordered commutative ring under the executable invariant `Node.inv`
+(`gnat_sibling_prune_sound_partial`, `gnat_radius_prune_sound_partial`, `gnat_inv_descends_partial`).
+Not proved (checked on every dump of the real tree by checks/c10.py instead, and said so there):
+
+  theorem nearestK_exact : Node.inv dist g.removed t = true → IsMetric dist →
+      IsKNearest (dist q ·) k (liveOf g.removed t.elems |>.map (·.val))
+                 ((g.nearestK dist eps rotate q k).1.map (·.2.val))        -- for every child order
+  theorem nearestR_exact : … IsRNearest …
+  theorem add_preserves_inv / split_establishes_inv / remove_preserves_inv / rebuild_abs
+-/
 namespace OmplModel.NN
-theorem linStep_clear {α} [BEq α] (d : List α) : linStep d .clear = [] := rfl
+
+variable {α D : Type}
+
+/-! ## Linear -/
+
+/-- `NearestNeighborsLinear`: `nearestK`, `nearestR` and `nearest` answer exactly like exhaustive
+search over the stored list: sorted, the `k` smallest as a sub-multiset / exactly the elements
+within the radius / a first minimum that is a stored element. -/
+theorem linear_exact [LinearOrder D] (dist : α → α → D) (q : α) (k : Nat) (rad : D) (data : List α) :
+    IsKNearest (fun x => dist x q) k data (linNearestK dist q k data) ∧
+    IsRNearest (fun x => dist x q) rad data (linNearestR dist q rad data) ∧
+    ScanInv (fun x => dist x q) (linNearest dist q data) data :=
+  ⟨bruteK_spec _ k data, bruteR_spec _ rad data, linNearest_spec dist q data⟩
+
+example : (linNearestK (fun (a b : Int) => (a - b).natAbs) 5 2 [9, 4, 7, 6]).length = 2 :=
+  (linear_exact (fun (a b : Int) => (a - b).natAbs) 5 2 0 [9, 4, 7, 6]).1.2.1
+example : (linNearest (fun (a b : Int) => (a - b).natAbs) 5 [9, 4, 7, 6]).map (·.1) = some 4 := by decide
+
+/-- the distance list of the answer is the sorted distance list of the contents cut at `k`
+(this is literally what the Python oracle compares against). -/
+theorem linear_nearestK_dists [LinearOrder D] (dist : α → α → D) (q : α) (k : Nat) (data : List α) :
+    (linNearestK dist q k data).map (fun x => dist x q) =
+      ((data.map (fun x => dist x q)).mergeSort (fun a b => decide (a ≤ b))).take k :=
+  bruteK_dists _ k data
+
+example : ((linNearestK (fun (a b : Int) => (a - b).natAbs) 5 3 [9, 4, 7, 6, 4]).map (fun x => (x - 5).natAbs)).length = 3 := by
+  have h := linear_nearestK_dists (fun (a b : Int) => (a - b).natAbs) 5 3 [9, 4, 7, 6, 4]
+  rw [h]; simp
+
+/-- after any sequence of add / add(vector) / remove / clear, the stored list is a permutation of
+the multiset it should hold, and `size()` is its cardinality. -/
+theorem linear_size_list_abs [BEq α] [LawfulBEq α] (ops : List (Op α)) :
+    (linRun ops).Perm (specRun ops) ∧ (linRun ops).length = (specRun ops).length :=
+  have h := lin_foldl_perm ops [] [] (List.Perm.refl _)
+  ⟨h, h.length_eq⟩
+
+example : linRun [Op.add 3, .addv [1, 3], .remove 3, .remove 7] = [3, 1] := by decide
+
+/-- `remove` reports `true` exactly when the element is currently held. -/
+theorem linear_remove_result [BEq α] [LawfulBEq α] (x : α) (data : List α) :
+    (removeLast x data).isSome = true ↔ x ∈ data :=
+  removeLast_isSome_iff x data
+
+/-! ## SqrtApprox -/
+
+/-- `NearestNeighborsSqrtApprox`: its stored list is the Linear one for every operation sequence
+(so `size`, `list`, `nearestK`, `nearestR` are Linear's, hence exact by `linear_exact`), and
+`nearest` returns a current member whenever the structure is non-empty, leaving the contents
+untouched. -/
+theorem sqrt_member [BEq α] [LawfulBEq α] [LT D] [DecidableLT D] (dist : α → α → D) (q : α) (ops : List (Op α)) :
+    let s := Sqrt.run ops
+    s.data = linRun ops ∧
+    (∀ b ∈ (s.nearest dist q).1, b.1 ∈ s.data) ∧
+    (s.data ≠ [] → ((s.nearest dist q).1).isSome = true) ∧
+    (s.nearest dist q).2.data = s.data := by
+  intro s
+  have hdata : s.data = linRun ops := sqrt_foldl_data ops {}
+  have hchk : s.checks = 0 → s.data = [] := sqrt_foldl_checks ops {} (fun _ => rfl)
+  refine ⟨hdata, ?_, ?_, ?_⟩
+  · intro b hb
+    unfold Sqrt.nearest at hb
+    split at hb
+    · exact sqrtProbe_mem dist q s b hb
+    · simp at hb
+  · intro hne
+    have hc : 0 < s.checks := Nat.pos_of_ne_zero (fun h => hne (hchk h))
+    have hn : 0 < s.data.length := List.length_pos_iff.mpr hne
+    unfold Sqrt.nearest
+    rw [if_pos ⟨hc, hn⟩]
+    exact sqrtProbe_isSome dist q s hc hn
+  · unfold Sqrt.nearest
+    split <;> rfl
+
+example : ((Sqrt.run [Op.addv [10, 20]]).nearest (fun (a b : Int) => (a - b).natAbs) 41).1.isSome = true := by
+  have h := sqrt_member (fun (a b : Int) => (a - b).natAbs) 41 [Op.addv [10, 20]]
+  exact h.2.2.1 (by rw [h.1]; decide)
+
+theorem sqrt_size_list_abs [BEq α] [LawfulBEq α] (ops : List (Op α)) :
+    (Sqrt.run ops).data.Perm (specRun ops) ∧ (Sqrt.run ops).data.length = (specRun ops).length := by
+  have h : (Sqrt.run ops).data = linRun ops := sqrt_foldl_data ops {}
+  rw [h]
+  exact linear_size_list_abs ops
+
+/-! ## GNAT (pruning soundness under the invariant) -/
+
+section Gnat
+variable [CommRing D] [LinearOrder D] [IsStrictOrderedRing D]
+
+omit [CommRing D] [IsStrictOrderedRing D] in
+/-- the invariant evaluated on the dumps holds at every node the traversal can reach. -/
+theorem gnat_inv_descends_partial (dist : α → α → D) (removed : List Nat) (t : Node α D)
+    (h : t.inv dist removed = true) :
+    isRemoved removed t.pivot = false ∧ localInv dist t.children = true ∧
+      ∀ c ∈ t.children, c.inv dist removed = true := by
+  obtain ⟨p, deg, r, rg, data, ch⟩ := t
+  have := (Node.inv_mk dist removed p deg r rg data ch).mp h
+  exact ⟨this.1, this.2.1, invL_mem dist removed ch this.2.2⟩
+
+/-- **Sibling pruning never discards an answer element.**  In a node satisfying the invariant, when
+the loop of `Node::nearestK` (`bound` = current k-th best distance `nbh.top().first`, reached only
+when `nbh.size() == k`) or of `Node::nearestR` (`bound` = the radius) sets `permutation[j] = -1`,
+every stored copy of the subtree of that sibling — pivot, removed copies and all — is strictly
+farther from the query than `bound`. -/
+theorem gnat_sibling_prune_sound_partial {dist : α → α → D} (hm : IsMetric dist) (removed : List Nat)
+    (t : Node α D) (hinv : t.inv dist removed = true) {child : Node α D} (hc : child ∈ t.children)
+    (q : α) (bound : D) (i : Nat) (perm : Array (PEntry D)) (j : Nat) (hj : j < perm.size)
+    {c' : Nat} {cj : Node α D} (hact : perm[j].child? = some c') (hcj : t.children[c']? = some cj)
+    (hpr : (pruneOthers child.ranges (dist q child.pivot.val) bound i perm)[j]'(by simpa using hj) = .pruned) :
+    ∀ x ∈ cj.elems, bound < dist q x.val :=
+  pruneOthers_sound hm (gnat_inv_descends_partial dist removed t hinv).2.1 hc q bound i perm j hj hact hcj hpr
+
+/-- **Radius pruning never discards an answer element.**  A child that is not enqueued
+(`inside … = false`) or that is skipped when dequeued (`outsideQ … = true`) stores nothing (besides
+its pivot, already offered to the answer) within `bound` of the query. -/
+theorem gnat_radius_prune_sound_partial {dist : α → α → D} (hm : IsMetric dist) (removed : List Nat)
+    (t : Node α D) (hinv : t.inv dist removed = true) {child : Node α D} (hc : child ∈ t.children)
+    (q : α) (bound : D)
+    (hskip : inside (dist q child.pivot.val) bound child.rad = false ∨
+             outsideQ (dist q child.pivot.val) bound child.rad = true) :
+    ∀ x ∈ child.data ++ elemsL child.children, bound < dist q x.val := by
+  have hl := (gnat_inv_descends_partial dist removed t hinv).2.1
+  rcases hskip with h | h
+  · exact enqueue_skip_sound hm hl hc q bound h
+  · exact dequeue_skip_sound hm hl hc q bound h
+
+end Gnat
+
+/-! non-vacuity: a dump of a real tree (corpus/C10/smoke-gnat.txt, L1 metric on ℤ²) satisfies the
+invariant, the metric laws hold for |a-b| on ℤ, and the pruning tests do fire. -/
+
+def l1 (a b : Int × Int) : Int := |a.1 - b.1| + |a.2 - b.2|
+
+def sampleTree : Node (Int × Int) Int :=
+  .mk ⟨0, (1, 2)⟩ 3 none [none, none, none] []
+    [ .mk ⟨1, (9, 9)⟩ 2 (some (0, 0)) [some (0, 0), some (16, 18), some (7, 11)] [] [],
+      .mk ⟨2, (0, 0)⟩ 2 (some (0, 2)) [some (18, 18), some (0, 2), some (7, 11)] [⟨3, (1, 1)⟩] [],
+      .mk ⟨4, (3, 4)⟩ 2 (some (0, 4)) [some (11, 11), some (5, 7), some (0, 4)] [⟨5, (5, 6)⟩, ⟨6, (3, 4)⟩] [] ]
+
+example : sampleTree.inv l1 [6] = true := by decide
+example : outside (l1 (0, 0) (9, 9)) (2 : Int) (some (16, 18)) = false := by decide
+example : outside (l1 (0, 0) (0, 0)) (2 : Int) (some (18, 18)) = true := by decide
+example : IsMetric (fun (a b : Int) => |a - b|) :=
+  ⟨fun a b => abs_sub_comm a b, fun a b c => abs_sub_le a b c⟩
+
 end OmplModel.NN
